@@ -20,3 +20,5 @@ PROP = {
                  'a skipper failure after a repetition element discards that element (follows the implementation, documented as (impl) in appendix A)',
                  'named keeps the fatal flag (finding F19, fixed)'],
 }
+
+PROP['rule'] += " Skippers: epsilon, space, char_set{' '}, literal(' '), *literal(' '), literal>>literal, *(literal>>literal), char_set>>literal, *char_set; the quick tier runs all nine for grammars of up to 2 nodes (wchar_t: 1 node) and five of them for 3 nodes."
